@@ -98,3 +98,22 @@ func genSetList15(rng *Rng) case15 {
 	}
 	return c
 }
+
+// ---------- package-level family: kio/filters.Merge3{...}.Merge() over three directories ----------
+//
+// The three laws at package level, with option combinations: MatchFilesGlob (default / a custom glob that also selects
+// files the default does not), resources in sub-directories. Files hold one ConfigMap-like resource each; the edits are
+// scalar changes and added scalar fields (none of the recorded node-level finding classes).
+
+type pkgFile15 struct {
+	Path string `json:"path"`
+	Orig string `json:"orig,omitempty"`
+	Upd  string `json:"upd,omitempty"`
+	Dest string `json:"dest,omitempty"`
+}
+
+type pkgCase15 struct {
+	Glob  []string    `json:"glob,omitempty"` // nil = the default
+	Law   string      `json:"law"`
+	Files []pkgFile15 `json:"files"`
+}
